@@ -1,3 +1,4 @@
+import IceTie.AgentTick
 import IceProofs.AgentC06Forms
 import IceTie.AgentRemote
 import IceTie.Order
@@ -546,5 +547,56 @@ theorem C06_code_restart_task (ufrag pwd : String) (connState : Int64) :
 
 example : (IceGen.agent_Restart_task "u" "p" 3).getLast? = some (IceModel.Eff.call "updateConnectionState" [IceModel.Val.i 2]) ∧
     (IceGen.agent_Restart_task "u" "p" 1).getLast? = some (IceModel.Eff.call "setSelector" []) := by decide
+
+/-! ## Tie to the code (T, round 3): pair bookkeeping of agent.go — `addPair`, one iteration of `pingAllCandidates`,
+`keepAliveCandidatesForRenomination`, `getBestAvailableCandidatePair` (`IceGen.T_Round3`, regenerated on every run) -/
+
+open IceTie.AgentTick in
+/-- `Agent.addPair`: counter first, creation with the agent's current role, id, append to the checklist, index by id; the model's
+`addPair` does the same -/
+theorem C06_code_addPair :
+    (∀ nextPairID, IceGen.agent_addPair nextPairID
+      = ([c "nextPairID++", c "p := newCandidatePair(local, remote, isControlling)",
+          IceModel.Eff.set "p.id" (IceModel.Val.n nextPairID.toNat),
+          IceModel.Eff.set "a.checklist" (IceModel.Val.s "checklist ++ [p]"),
+          IceModel.Eff.set "a.pairsByID[p.id]" (IceModel.Val.s "p")], "p")) ∧
+    (∀ (a : Agent) (l r : Cand),
+      (a.addPair l r).2 = { id := a.nextPairID + 1, l := l.uid, r := r.uid, controlling := a.controlling } ∧
+      (a.addPair l r).1.nextPairID = a.nextPairID + 1 ∧
+      (a.addPair l r).1.checklist = a.checklist ++ [(a.addPair l r).2]) :=
+  ⟨addPair_tie, addPair_model⟩
+
+example : (IceGen.agent_addPair 7).1.length = 5 ∧ (IceGen.agent_addPair 7).2 = "p" := by decide
+
+open IceTie.AgentTick in
+/-- one iteration of the checklist loops: `pingAllCandidates` (Waiting → InProgress; not InProgress → skipped; over the limit →
+Failed, not pinged; else pinged, then counted), `keepAliveCandidatesForRenomination` (Failed skipped, Waiting → InProgress, every
+other pair pinged, no limit), `getBestAvailableCandidatePair` (not Failed, strictly higher priority replaces); the model folds
+the same bodies (`pingStep`, `keepAliveStep`) -/
+theorem C06_code_checklist_iterations :
+    (∀ empty state count maxReq, IceGen.agent_pingAllCandidates_iter empty state count maxReq
+      = pingEffs (state == 1) (pingDecision (stOf state) count.toNat maxReq.toNat)) ∧
+    (∀ (a : Agent) (now : Nat), a.pingAll now = (a.checklist.map (·.id)).foldl (pingStep now) (a, [])) ∧
+    (∀ (now : Nat) (a : Agent) (o : List Out) (id : Nat) (p : Pair), a.pairById id = some p →
+      pingDecision p.state p.reqCount a.cfg.maxBindingRequests = .skip → pingStep now (a, o) id = (a, o)) ∧
+    (∀ (now : Nat) (a : Agent) (o : List Out) (id : Nat) (p : Pair), a.pairById id = some p →
+      pingDecision p.state p.reqCount a.cfg.maxBindingRequests = .fail → (pingStep now (a, o) id).2 = o) ∧
+    (∀ empty state, IceGen.agent_keepAliveCandidatesForRenomination_iter empty state
+      = if empty then []
+        else [c "for:checklist"] ++
+          (if state == 3 then []
+           else (if state == 1 then [IceModel.Eff.set "pair.state" (IceModel.Val.i 2)] else []) ++ [c "PingCandidate"]) ++ [c "end:checklist"]) ∧
+    (∀ (a : Agent) (now : Nat), a.keepAliveAll now = (a.checklist.map (·.id)).foldl (keepAliveStep now) (a, [])) ∧
+    (∀ state bestNil bestPrio pPrio, IceGen.agent_getBestAvailableCandidatePair_iter state bestNil bestPrio pPrio
+      = bestEffs (!(state == 3) && (bestNil || decide (bestPrio.toNat < pPrio.toNat)))) :=
+  ⟨pingAllCandidates_iter_tie, pingAll_fold, pingStep_skip, pingStep_fail, keepAliveCandidatesForRenomination_iter_tie,
+   keepAliveAll_fold, getBestAvailableCandidatePair_iter_tie⟩
+
+example : IceGen.agent_pingAllCandidates_iter false 1 8 7
+      = IceTie.AgentTick.pingEffs true IceTie.AgentTick.PingDecision.fail ∧
+    IceGen.agent_pingAllCandidates_iter false 2 7 7 = IceTie.AgentTick.pingEffs false IceTie.AgentTick.PingDecision.ping ∧
+    IceGen.agent_pingAllCandidates_iter false 4 0 7 = IceTie.AgentTick.pingEffs false IceTie.AgentTick.PingDecision.skip ∧
+    IceGen.agent_keepAliveCandidatesForRenomination_iter false 4
+      = [IceTie.AgentTick.c "for:checklist", IceTie.AgentTick.c "PingCandidate", IceTie.AgentTick.c "end:checklist"] := by decide
 
 end IceProps.C06
